@@ -26,7 +26,7 @@ func init() {
 			}
 			return 16
 		},
-		Rule: "each case = (a) 93%: one random block tree grown against the real code (tracker level: txlocator manager+trackers composed with service.CheckTxTimestamp exactly as transition.doExecute does; service level: service.NewTransition(validated=false) on a real world state, thresholds of 1-6 ms or of 2-5 minutes / the unset default of 5 min at real microsecond timestamps, i.e. above the 1-minute patch-group constant): 12-40 steps of extend/fork/commit with block times strictly increasing, thresholds 1..6 units constant or changing between blocks, transaction timestamps biased to the window edges {bts-th, bts-th+1, bts+th-1, bts+th, bts+th+1}, duplicates planted in the same block / unfinalized parent / deeper unfinalized ancestor / finalized ancestor still cached / finalized ancestor evicted to the DB, transactions of sibling branches re-used (must be accepted). Every ancestor is a block the model accepts. Oracle = per-branch id set + window predicate of the statement; real verdict must equal the model's. (b) 2.5%: concurrency run: one committer goroutine extending/finalizing a 40-100 block chain (finalization lag 0-2 blocks) while 4-8 goroutines query manager.Has / tip tracker.Has under the race detector, grow-only-set oracle (present after Commit returned while the timestamp can still be in a next block's window; unknown ids never present). Non-trivial = distinct candidate (structure relative to its block time, 6 ancestors deep) that contains a replay whose timestamp the candidate's window accepts, or a timestamp exactly on a window edge, or a sibling-branch transaction.",
+		Rule: "each case = (a) 93%: one random block tree grown against the real code (tracker level: txlocator manager+trackers composed with service.CheckTxTimestamp exactly as transition.doExecute does; service level: service.NewTransition(validated=false) on a real world state, thresholds of 1-6 ms or of 2-5 minutes / the unset default of 5 min at real microsecond timestamps, i.e. above the 1-minute patch-group constant): 12-40 steps of extend/fork/commit with block times strictly increasing, thresholds 1..6 units constant or changing between blocks, transaction timestamps biased to the window edges {bts-th, bts-th+1, bts+th-1, bts+th, bts+th+1}, duplicates planted in the same block / unfinalized parent / deeper unfinalized ancestor / finalized ancestor still cached / finalized ancestor evicted to the DB, transactions of sibling branches re-used (must be accepted). Every ancestor is a block the model accepts. Oracle = per-branch id set + window predicate of the statement; real verdict must equal the model's. (c) 2.5%: crash/restart: a chain finalized block by block (Add, Commit) on a DB wrapper that lets the locator flush of one block hang, further finalizations attempted meanwhile, crash = pending writes dropped, restart as block.Manager does (new manager on the surviving DB, last finalized block re-recorded with force and committed), then every transaction of every finalized block that a next block's window accepts must be known (Has) and refused (Add); (b) 2.5%: concurrency run: one committer goroutine extending/finalizing a 40-100 block chain (finalization lag 0-2 blocks) while 4-8 goroutines query manager.Has / tip tracker.Has under the race detector, grow-only-set oracle (present after Commit returned while the timestamp can still be in a next block's window; unknown ids never present). Non-trivial = distinct candidate (structure relative to its block time, 6 ancestors deep) that contains a replay whose timestamp the candidate's window accepts, or a timestamp exactly on a window edge, or a sibling-branch transaction.",
 		MinNonTrivial: func(t string) int {
 			if t == ev.Thorough {
 				return 200000
@@ -46,13 +46,14 @@ func init() {
 			"service_replay_in_window_unfinalized-parent", "service_replay_in_window_unfinalized-deeper", "service_replay_in_window_finalized",
 			"service_replay_in_window_ts-eq-origin-max", "service_threshold_changed", "service_sibling_branch_tx_accepted",
 			"service_trees_minute_thresholds", "service_replay_in_window_ts_ge_origin_bts_plus_1min_unfinalized-parent", "service_replay_in_window_ts_ge_origin_bts_plus_1min_finalized",
+			"crash_runs", "crash_hung_flush_observed", "crash_commit_waited_for_older_flush", "crash_ids_of_older_blocks_checked",
 			"conc_runs", "conc_queries_after_commit_judged", "conc_queries_unknown_id", "conc_queries_via_tip_tracker",
 		},
 		Assumptions: []string{
 			"block timestamps strictly increase along a chain (C07) and every ancestor block is valid",
 			"a branch whose sibling was finalized is dead and never extended or queried again",
 			"hook txlocator.VerifWaitFlush makes the asynchronous locator flush of the normal group complete before the next step; VerifCacheInfo/VerifCached are used for labels and counters only, never by the oracle",
-			"MapDB is the durable store; manager restarts are not part of the histories",
+			"MapDB is the durable store; a crash loses exactly the writes that had not reached it; restart follows block/manager.go (only the last finalized block is re-recorded)",
 		},
 		Env: func(tier string, batch int) []string {
 			// schedule perturbation for the concurrency phase
@@ -76,6 +77,8 @@ func run(c *ev.Ctx) {
 			serviceCase(c, r)
 		case k < 8:
 			concCase(c, r)
+		case k < 11:
+			crashCase(c, r)
 		default:
 			trackerCase(c, r)
 		}
